@@ -11,7 +11,7 @@ META = {
     "technique": "Rocq proofs: the apply model returns the same (unique) edge for any two caches satisfying the cache invariant, history independence, and a model of the direct-mapped cache whose lookups only return entries added for exactly that operator/operand tuple since the last clear; correspondence: identical operation scripts run on real managers with apply-cache capacities {1, 2, 16, 65536}, all ordered operator pairs on the same operands, gc/reorder/add_vars between repetitions; per-script result digests must coincide across capacities and every result must equal the spec",
     "category": "proof",
     "design_ref": "DESIGN.md section 5, C06",
-    "level_text": "Theorems in coq/Props/C06.v (cache transparency, history independence and uniqueness of the result edge for the plain BDD apply model, and the same statements for the complement-edge BDD, the ZBDD Boolean interface and MTBDD add/sub/mul/div/min/max/ite/restrict; validity of the quantification/substitution caches incl. fresh substitution ids; soundness of the direct-mapped cache model with numeric operands). Tie to the code: every script (all ordered pairs of operators issued back to back on the same operands, also with swapped operands, repeated after gc(), set_var_order and add_vars; random histories with quantification and substitution; BDD, BCDD, ZBDD, MTBDD<I64>) is executed on four managers that differ only in the apply-cache capacity (1, 2, 16, 65536 entries) and on a fifth one that collects (= clears the cache) before every operation; the driver lifts every result, checks it against the extracted spec and emits a digest of all result tables and node counts per script; a digest that differs between capacities, or a result that is wrong under one capacity but right under another, is a C06 violation (a result that is wrong under every capacity is left to the operator's own property).",
+    "level_text": "Theorems in coq/Props/C06.v (cache transparency, history independence and uniqueness of the result edge for the plain BDD apply model, and the same statements for the complement-edge BDD, the ZBDD Boolean interface and MTBDD add/sub/mul/div/min/max/ite/restrict; validity of the quantification/substitution caches incl. fresh substitution ids; soundness of the direct-mapped cache model with numeric operands). Tie to the code: every script (all ordered pairs of operators issued back to back on the same operands, also with swapped operands, repeated after gc(), set_var_order and add_vars; random histories with quantification and substitution; BDD, BCDD, ZBDD, MTBDD<I64>) is executed on four managers that differ only in the apply-cache capacity (1, 2, 16, 65536 entries) and on a fifth one that collects (= clears the cache) before every operation; the driver lifts every result, checks it against the extracted spec and emits a digest of all result tables and node counts per script; a digest that differs between capacities, or a result that is wrong under one capacity but right under another, is a C06 violation (a result that is wrong under every capacity is left to the operator's own property). TDD (package TDDx, theorems C06_tdd_*): the three-valued apply algorithms with the cache keys of the code (normalised operand pair AND operator of terminal_bin; (Not,[f]); (Ite,[f,g,h])): two runs with arbitrary correct caches return the same value under every assignment, a repetition in any later table returns the identical reference and creates nothing, the result is the unique reference with its meaning (per operation: _apply_bin_cache_transparent, _apply_{not,bin,ite}_history_independent, _apply_{bin,ite}_result_unique; direct-mapped cache instance _dm_cache_ok); whole histories of the TDD manager state machine Mgr/TddHist.v incl. gc (cache cleared) and add_vars: two managers in ANY two configurations (edge order, cache type and contents) fed the same calls stay related (C06_tdd_hist_step, _hist_cache_independent, _hist_dm_cache_transparent: direct-mapped cache with any hash / bucket count / capacity vs no cache) and related states have the same occupied slots, the same value of every slot under every three-valued assignment, the same value tables and the same == answers (C06_tdd_hist_observe). Tie: tdd scripts (every ordered pair of the 8 connectives and ite back to back on the same operands, also swapped / repeated operands, not in between, repeated after gc / set_var_order / add_vars; random histories) under apply-cache capacities 1, 2, 16, 65536 and with a collection before every operation: equal digests of all result / cofactor tables, eval results and node counts; every result against the fixed tables.",
     "level_note": "Trusted: Coq kernel, extraction, OCaml driver, Rust harness. The try_lock path of the cache (a busy bucket is a miss) is covered by the arbitrary-cache quantification of the theorem; its atomicity is C07's base. The 'no cache' build configuration is C20.",
 }
 ALLOWED_AXIOMS = ()
